@@ -22,6 +22,11 @@ import (
 var c19NamePool = []string{"work", "home", "a", "b", "zeta", "alpha", "default", "@work", "@default", "@", "Work", "wörk", "日本", "my file", "it's", "say \"hi\"", "back\\slash", "team@", "team", "a@b", "x.y", "über",
 	"project-1", "under_score", "semi;colon", "tab\tname", "emoji😀", "UPPER", "mixedCase", "0", "007", "a b c", "né", "né"}
 
+func init() {
+	// names that look like paths: a bookmark name is whatever follows the '@', also when it contains separators or dots
+	c19NamePool = append(c19NamePool, "clients/acme", "a/b/c", "dot.klg", "../up", "x:y", "@clients/acme")
+}
+
 func c19Norm(name string) string {
 	n := strings.TrimLeft(name, "@")
 	if n == "" {
